@@ -4,21 +4,39 @@ from pathlib import Path
 LIBS = ["libavoid"]
 HARNESS = "harness/c10.cpp"
 DRIVER_MODE = "c10"
-LEAN_MODULES = ["AdaptaVerif.Props.C10", "AdaptaVerif.Props.C10Tie"]
+LEAN_MODULES = ["AdaptaVerif.Props.C10", "AdaptaVerif.Props.C10Tie", "AdaptaVerif.Props.C10Region"]
 # COLA_ASSERT throws vpsc::CriticalFailure instead of calling abort() (see harness/c11.cpp)
 EXTRA_FLAGS = ["-DUSE_ASSERT_EXCEPTIONS"]
 LEVEL = "translation_validation"
-LEVEL_TEXT = ("Theorems for all regions / parameters / solver outputs about an abstract Lean model of one nudging region "
-              "(constraint generation of nudgeOrthogonalRoutes): any assignment satisfying the generated constraints "
-              "separates ordered overlapping segments of different connectors by sepDist, stays within tol of the channel "
-              "limits, the applied positions are inside [minSpaceLimit,maxSpaceLimit], fixed segments and unsatisfied "
-              "regions are never written, applied separation >= sepDist - 2 tol, reduced distance >= d/10 > 0. "
-              "The routes the real library returns on generated corridor scenes are checked by Lean checkers with "
+LEVEL_TEXT = ("Theorems for all regions / parameters / solver outputs about (a) an abstract Lean model of one nudging region and "
+              "(b) the extended region model of nudgeOrthogonalRoutes (Model/NudgeRegion.lean: solver variables with ids / desired "
+              "positions / weights, constraint generation from the ordered segment list with the real overlapsWith / "
+              "shouldAlignWith / canAlignWith / common-end rules, channel-edge variables, variable numbering, the retry loop that "
+              "reduces the separation distance and rewrites the gaps inside the unsatisfied ranges, the unifying loop with its "
+              "potential constraints, the write-back rule). Both are instances of one generic generator (genCons_is_genG), so the "
+              "abstract theorems are lifted: in EVERY attempt of the retry loop, for every solver answer satisfying the constraints "
+              "of that attempt, ordered overlapping segments of different connectors are at least the current distance apart "
+              "(retry_separation), that distance is > 1e-4 and, in exact arithmetic, in [d/10, d] (retry_distance_*), free segments "
+              "stay within tol of their channel limits (retry_limits), a satisfied round leaves fixed variables / channel edges "
+              "within 1e-4 (satisfied_close), written positions are inside [minSpaceLimit,maxSpaceLimit], fixed segments and "
+              "unsatisfied regions are never written, applied separation >= distance - 2 tol. "
+              "Tie: with the guarded hook in /repo every region the real library forms is dumped (ordered segments, variables, the "
+              "constraints of every attempt, solver results, write-back) and must equal the model's output on the same ordered "
+              "segments exactly (Rat, doubles rounded as IEEE), on every run and every generator class; 13 scalar kernels of "
+              "NudgingShiftSegment and the id / weight constants are regenerated from orthogonal.cpp by cpp2lean on every run and "
+              "proved equal to the hand models (Props/C10Tie). The routes the library returns are checked by Lean checkers with "
               "soundness theorems (shared collinear stretch, distance of parallel overlapping segments, checkpoints).")
-LEVEL_NOTE = ("No hook in /repo: the per-region constraint list of the C++ (design hook H1) is NOT observed, so the model's "
-              "genCons is not compared with the implementation; region formation, segment ordering (PtOrderMap, linesort), "
-              "channel limits and the VPSC solver are not modelled. The tie is the per-run check of route()/displayRoute() "
-              "only. 'Wide enough' is the generator's construction W >= (m+1)*d for one straight corridor with all end "
+LEVEL_NOTE = ("Modelled per region and tied through the hook: variable creation, constraint generation, retry / unifying loop, "
+              "write-back; the VPSC solver itself is an oracle of the model (its answers are taken from the dump; that they satisfy "
+              "the constraints is C01/C02 and is re-checked here on the written positions: [region-sep]). NOT modelled: which "
+              "segments exist and their channel limits (buildOrthogonalNudgingSegments / buildOrthogonalChannelInfo), the point "
+              "orders (PtOrderMap) behind CmpLineOrder - of region formation and ordering only necessary conditions are checked "
+              "on the dump (no overlap across regions of one pass; adjacent segments respect the position / fixedOrder / order rules "
+              "of CmpLineOrder); shouldAlignWith, CmpLineOrder::operator() and updatePositionsFromSolver are hand models (not "
+              "regenerated). The hypothesis `nextSep o s <= s` of the retry theorems is proved for exact arithmetic "
+              "(reduction_nonincreasing_exact) and observed for doubles (the dumped distances equal the model's IEEE evaluation). "
+              "Without the hook in the tree under test the harness prints `hook 0` and only the route-level checks run. "
+              "'Wide enough' is the generator's construction W >= (m+1)*d for one straight corridor with all end "
               "point ordinates outside the corridor range; approach channels beside the blocks are unbounded. Bound checked "
               "for separated pairs: d/10 - 3e-4 (>= d/10 after <= 9 reductions, - 2*1e-4 satisfied-tolerance, - 1e-4 float "
               "slack). Finding classes counted, SPECFAIL only once known_findings.json names them: opt-final-nudge "
@@ -26,7 +44,7 @@ LEVEL_NOTE = ("No hook in /repo: the per-region constraint list of the C++ (desi
               "narrow-sep (infeasible narrow region applied with constraints dropped by VPSC), lib-assert, cp-disp "
               "(checkpoint lost from displayRoute() that sits on a simplify()-cut spur or at a bend of route()). A lost "
               "checkpoint strictly inside a straight segment of route() is always SPECFAIL ([cp-disp-mid]).")
-TECHNIQUE = "Lean 4 theorems (nudging-region constraint model, checker soundness) + correspondence harness on corridor scenes"
+TECHNIQUE = "Lean 4 theorems (region model of nudgeOrthogonalRoutes, retry-loop invariant, checker soundness) + per-region hook dump compared exactly with the model + cpp2lean-regenerated kernels + correspondence harness on corridor scenes"
 RULE = ("corridor of free width W between two blocks (horizontal/vertical), m=2..6 orthogonal connectors with pairwise "
         "distinct end coordinates crossing it, d in {1,4,10}, all 32 combinations of the five nudging options in turn, "
         "buffer 0/2, fixedSharedPathPenalty 0/110, optional checkpoint in the corridor; 3/4 of the cases wide enough "
@@ -35,8 +53,13 @@ RULE = ("corridor of free width W between two blocks (horizontal/vertical), m=2.
         "sharing the channel between obstacle and checkpoints (wide enough by construction), mirrored control. Third family (tags endseg-tie / endseg-off): one obstacle, connector A whose first segment "
         "(free point with a direction, or a shape pin) runs exactly along obstacle edge + buffer, 1-2 connectors wrapping "
         "the obstacle as c-bends on that line, free side >= (m+1)d+20, all mirror/transpose images, control with A off "
-        "the line. A case is non-trivial if at least two connectors share a collinear stretch before nudging.")
+        "the line. Fourth family (tags zcross-rtl / zcross-ltr): a channel >= 200 wide between two tall shapes, one straight "
+        "connector down its centre line (fixed), 2-3 Z-shaped connectors crossing it whose middle runs have pairwise disjoint "
+        "spans and are centred onto that line: the fixed segment has several overlapping neighbours that do not overlap each "
+        "other. Every case additionally carries the hook dump of all regions (when the hook is in the tree). A case is non-trivial if at least two connectors share a collinear stretch before nudging.")
 TRUSTED_BASE = ["Lean 4.33 kernel", "axioms: propext, Classical.choice, Quot.sound", "Lean compiler for the driver",
+                "the guarded hook in orthogonal.{h,cpp} (copies values out, changes nothing) and harness/c10_regions.h",
+                "tools/cpp2lean + clang AST (job nudgek)", "Model.NudgeRegion.roundDouble = IEEE round-to-nearest-even (x86-64 SSE2, no FMA contraction)",
                 "harness/c10.cpp generator (wide-enough construction) + hex-float import"]
 ASSUMPTIONS = ["integer scene coordinates", "end points are free points (no shapes / pins at the ends)"]
 
